@@ -90,8 +90,8 @@ def base_config(spec):
         ep = sp_endpoints(spec)
         svc = {
             "endpoints": {
-                "assertion_consumer_service": [(ep["acs_post"], BINDING_HTTP_POST),
-                                               (ep["acs_redirect"], BINDING_HTTP_REDIRECT)],
+                "assertion_consumer_service": [(ep["acs_post"], BINDING_HTTP_POST)] + (
+                    [] if spec.get("no_redirect_acs") else [(ep["acs_redirect"], BINDING_HTTP_REDIRECT)]),
                 "single_logout_service": [(ep["slo_soap"], BINDING_SOAP),
                                           (ep["slo_post"], BINDING_HTTP_POST),
                                           (ep["slo_redirect"], BINDING_HTTP_REDIRECT)],
